@@ -29,13 +29,13 @@ Qed.
 (* A tagged node `!Variant payload` is the whole payload: if anything of it is left unread the
    result is an error (finding F24, fixed).  Stated for the tagged scalar form. *)
 Lemma option_null_table f c t v tag raw st a l prev rest ref :
-  (tag =? TAG_Null) || (negb (tag =? TAG_String) && scalar_is_nullish_for_option v st) = true ->
+  (tag =? TAG_Null) || (negb (tag =? TAG_String) && negb (tag =? TAG_Binary) && scalar_is_nullish_for_option v st) = true ->
   deser (S f) c false (TOption t) (SReplay prev (EScalar v tag raw st a l :: rest) ref) =
   DOk VNone (SReplay (Some (EScalar v tag raw st a l)) rest ref).
 Proof. intros H. cbn [deser src_peek]. rewrite H. reflexivity. Qed.
 
 Lemma option_some_table f c t v tag raw st a l prev rest ref :
-  (tag =? TAG_Null) || (negb (tag =? TAG_String) && scalar_is_nullish_for_option v st) = false ->
+  (tag =? TAG_Null) || (negb (tag =? TAG_String) && negb (tag =? TAG_Binary) && scalar_is_nullish_for_option v st) = false ->
   deser (S f) c false (TOption t) (SReplay prev (EScalar v tag raw st a l :: rest) ref) =
   match deser f c false t (SReplay prev (EScalar v tag raw st a l :: rest) ref) with
   | DOk x s => DOk (VSome x) s
